@@ -49,6 +49,9 @@ type Spec struct {
 	// interleaved, like the patch and signature wires of WritePatch - the second one with the messages in
 	// reverse order; each must read back as its own sequence.
 	Twin bool `json:"twin,omitempty"`
+	// Hold: popped checkpoints are kept as objects and serialized only after the whole stream has been read
+	// (later saves of the same reader must not change a checkpoint handed out before)
+	Hold bool `json:"hold,omitempty"`
 }
 
 // writeStream frames msgs under comp; the returned closer closes the compressed context
@@ -239,6 +242,7 @@ func check(s Spec) h.Result {
 		gap  int64
 	}
 	var cks []ck
+	var held []*wire.MessageReaderCheckpoint
 	r, err := open()
 	if err != nil {
 		return h.Result{Fail: fmt.Sprintf("cannot open the stream that was just written: %v", err), Classes: cl}
@@ -276,15 +280,20 @@ func check(s Spec) h.Result {
 			c = r.PopCheckpoint()
 		}
 		if c != nil {
-			b := new(bytes.Buffer)
-			if err := gob.NewEncoder(b).Encode(c); err != nil {
-				return h.Result{Fail: fmt.Sprintf("checkpoint cannot be gob-encoded: %v", err), Classes: cl}
-			}
 			gap := int64(0)
 			if c.SourceCheckpoint != nil {
 				gap = c.Offset - c.SourceCheckpoint.Offset
 			}
-			cks = append(cks, ck{i, b.Bytes(), gap})
+			if s.Hold {
+				held = append(held, c)
+				cks = append(cks, ck{i, nil, gap})
+			} else {
+				b := new(bytes.Buffer)
+				if err := gob.NewEncoder(b).Encode(c); err != nil {
+					return h.Result{Fail: fmt.Sprintf("checkpoint cannot be gob-encoded: %v", err), Classes: cl}
+				}
+				cks = append(cks, ck{i, b.Bytes(), gap})
+			}
 		}
 		if i == len(sent) {
 			m := &pwr.SyncOp{}
@@ -303,6 +312,18 @@ func check(s Spec) h.Result {
 		}
 		if !proto.Equal(m, sent[i]) {
 			return h.Result{Fail: fmt.Sprintf("message %d (%s, %d bytes) read back differs from what was written", i, s.Msgs[i].Kind, s.Msgs[i].Size), Classes: cl}
+		}
+	}
+	if s.Hold {
+		for k, c := range held {
+			b := new(bytes.Buffer)
+			if err := gob.NewEncoder(b).Encode(c); err != nil {
+				return h.Result{Fail: fmt.Sprintf("checkpoint cannot be gob-encoded: %v", err), Classes: cl}
+			}
+			cks[k].data = b.Bytes()
+		}
+		if len(held) > 1 {
+			cl = append(cl, "checkpoints:held-and-serialized-after-later-ones-were-popped")
 		}
 	}
 	nt := false
@@ -447,6 +468,7 @@ var prop = h.Prop[Spec]{
 			s.Warm = rapid.IntRange(1, 3).Draw(t, "warm")
 		}
 		s.Twin = rapid.IntRange(0, 4).Draw(t, "twin-streams") == 0
+		s.Hold = rapid.IntRange(0, 2).Draw(t, "hold-checkpoints") == 0
 		return s
 	},
 	Check: check,
